@@ -44,7 +44,7 @@ def noStale (st : List Status) (ps : List ImplPeer) (rx : Nat → Option Nat) : 
     | _ => false
   bad.map fun _ => "reserved-without-an-unchoked-peer-asked-for-it"
 
-def c12 (args res : List String) : Verdict :=
+def c12core (t4 : Bool) (args res : List String) : Verdict :=
   match args, res with
   | ["hist", nps, _tieSeed, ops], [outs] =>
     match nps.toNat? with
@@ -54,10 +54,10 @@ def c12 (args res : List String) : Verdict :=
     let outl := outs.splitOn ";"
     -- `div`: the first divergence of the bookkeeping snapshot (replies still agreed); the run then goes on with the
     -- model's state, looking for a manager panic on a later event the tasks can still emit
-    let rec go : List String → List String → MState → Nat → Option Verdict → Option Verdict
-      | [], _, _, _, div => div
-      | _ :: _, [], _, _, _ => some (vBad "fewer outputs than ops")
-      | op :: ops, out :: outs, s, k, div =>
+    let rec go : List String → List String → MState → Bool → Nat → Option Verdict → Option Verdict
+      | [], _, _, _, _, div => div
+      | _ :: _, [], _, _, _, _ => some (vBad "fewer outputs than ops")
+      | op :: ops, out :: outs, s, ext, k, div =>
         let c := op.toList.headD ' '
         let rest := String.ofList (op.toList.drop 1)
         let (aS, argS) := match rest.splitOn ":" with
@@ -79,7 +79,7 @@ def c12 (args res : List String) : Verdict :=
         if !enabled then (match div with | some d => some d | none => some { text := s!"unrealizable-history op {op}", tag := "unrealizable" }) else
         if out = "PANIC" then some (vProp (if div.isSome then "v-manager-panic-after-bookkeeping-diverged" else "v-manager-panic") s!"op-{c}") else
         match aS.toNat?, out.splitOn "|" with
-        | some a, [reply, stS, psS] =>
+        | some a, [reply, stS, psS, xS] =>
           let implSt := (parseStatuses stS).getD []
           let implPs := parseImplPeers psS
           let target := (findPeer s a).map (·.pieces) |>.getD []
@@ -135,21 +135,28 @@ def c12 (args res : List String) : Verdict :=
               | some cl => some (vProp s!"ii-{cl}" s!"op-{c}")
               | none =>
                 let modelReply := if c = 'b' then (if chosen.isSome then "BI" else "Bn") else replyTok r
-                let model := s!"{modelReply}|{statusesTok s'.statuses}|{mpeersTok s'.peers}"
+                -- `files_extracted` (xstep): looked at after a stored piece and after a disconnect
+                let ext' := ext || (checksCompletion false ev && decide (stillMissing s'.statuses = 0))
+                let model := s!"{modelReply}|{statusesTok s'.statuses}|{mpeersTok s'.peers}|{if ext' then "x" else "-"}"
+                -- C02/T4 on the implementation's own snapshot: started iff complete
+                if t4 ∧ np > 0 ∧ xS = "x" ∧ stillMissing implSt ≠ 0 then some (vProp "T4-extraction-started-before-every-piece-is-owned" s!"op-{c}") else
+                if t4 ∧ np > 0 ∧ xS ≠ "x" ∧ stillMissing implSt = 0 ∧ implSt.length = np then some (vProp "T4-every-piece-owned-but-extraction-not-started" s!"op-{c}") else
                 if div.isSome then
                   -- already diverged: go on only while the replies (which drive the tasks) still agree
-                  if modelReply ≠ reply then div else go ops outs s' (k + 1) div
+                  if modelReply ≠ reply then div else go ops outs s' ext' (k + 1) div
                 else if model ≠ out then
                   let d := vDiff s!"op-{c}-step{k}" model s!"op-{c}"
-                  if modelReply ≠ reply then some d else go ops outs s' (k + 1) (some d)
-                else go ops outs s' (k + 1) none
+                  if modelReply ≠ reply then some d else go ops outs s' ext' (k + 1) (some d)
+                else go ops outs s' ext' (k + 1) none
         | _, _ => some (vBad out)
-    match go opl outl { statuses := List.replicate np .missing, peers := [] } 0 none with
+    match go opl outl { statuses := List.replicate np .missing, peers := [] } false 0 none with
     | some v => v
     | none =>
       let has (ch : Char) := opl.any (fun o => o.toList.headD ' ' = ch)
       vOk s!"hist{if has 'd' then "-done" else ""}{if has 'x' then "-cancel" else ""}{if has 'k' then "-kill" else ""}{if np < 10 then "-endgame" else "-normal"}"
   | _, _ => vBad (joinToks args)
+
+def c12 (args res : List String) : Verdict := c12core false args res
 
 /-- The manager histories as C02 reads them: T3 (the number of pieces not owned never goes up) is evaluated on the
     implementation's own snapshots first; the correspondence with the manager model (on which T2/T3 are proved) is
@@ -159,11 +166,11 @@ def c02hist (args res : List String) : Verdict :=
   | [outs] =>
     let counts := (outs.splitOn ";").filterMap fun out =>
       match out.splitOn "|" with
-      | [_, stS, _] => (parseStatuses stS).map stillMissing
+      | [_, stS, _, _] => (parseStatuses stS).map stillMissing
       | _ => none
     if (counts.zip (counts.drop 1)).any (fun (a, b) => decide (a < b)) then
       vProp "T3-number-of-missing-pieces-increased" "hist"
-    else c12 ("hist" :: args) res
+    else c12core true ("hist" :: args) res
   | _ => vBad (joinToks args)
 
 end Driver
